@@ -28,6 +28,7 @@ void operator delete(void* p) noexcept { if (p) { --g_live; std::free(p); } }
 void operator delete[](void* p) noexcept { if (p) { --g_live; std::free(p); } }
 void operator delete(void* p, std::size_t) noexcept { if (p) { --g_live; std::free(p); } }
 void operator delete[](void* p, std::size_t) noexcept { if (p) { --g_live; std::free(p); } }
+static bool g_leakReported = false;
 static int g_errs = 0, g_line = 0;
 static int onError(int line, const char*) { ++g_errs; g_line = line; return 1; }
 static Potassco::SmodelsInput::Options smOpts(ll o) {
@@ -107,10 +108,16 @@ int main() {
 		catch (...) { status = 3; }
 		int leak = 0;
 		if (g_live > live0) { leak = __lsan_do_recoverable_leak_check() ? 1 : 0; }
+		if (leak) { g_leakReported = true; }
 		o.add(status); o.add(g_errs); o.add(g_line); o.add(leak ? 1 : 0);
 		if (mode <= 2) { if (!rec.s.empty()) { o.s += ' '; o.s += rec.s; } }
 		else { o.add((ll)outBytes.size()); o.addBytes(outBytes.data(), outBytes.size()); }
 		o.flush();
 	}
+	// A leak that was attributed to ITS case above (leak flag in that case's observation) would be reported once more by LeakSanitizer when
+	// the process ends, and the driver blames a report at exit on the LAST case of the batch - an unrelated input as replay. So when a
+	// case has carried the flag the at-exit check is skipped; when none has, the process ends normally and the at-exit check remains the
+	// backstop for blocks the operator new/delete counter does not see (malloc'ed by the library).
+	if (g_leakReported) { std::fflush(stdout); _exit(0); }
 	return 0;
 }
